@@ -386,7 +386,14 @@ def payload(k, n):
 
 
 def name_of(k, n):
-    return (b"urn:nfc:sn:%d." % k + b"x" * n)[-n:] if n >= 14 else (b"%d" % (k % 10) + b"n" * n)[:n]
+    """service name of exactly n bytes, distinct for distinct k as far as n allows"""
+    alpha = b"abcdefghijklmnopqrstuvwxyzABCDEFGHIJKLMNOPQRSTUVWXYZ0123456789"
+    out = bytearray()
+    k += 1
+    while k and len(out) < n:
+        out.append(alpha[k % 62])
+        k //= 62
+    return bytes(out + b"." * (n - len(out)))
 
 
 class History:
@@ -642,6 +649,7 @@ class History:
             for st in self.case["setup"]:
                 self.setup(st)
         except Exception as e:
+            self.aborted = e
             R.count("setup_failed")
             R.seen("setup_failures", exc_sig(e) + " " + repr(e)[:80])
             self.finish()
@@ -860,9 +868,6 @@ def run(desc, R, rng):
             R.sample({"miu_a": case["miu_a"], "miu_b": case["miu_b"], "agf_a": case["agf_a"], "profile": profile,
                       "setup": case["setup"], "ops": case["ops"][:6], "frames": h.mon.frames})
     R.count("pdu_len_contract", contracts.COUNTS.get("pdu_len_contract", 0) - c0)
-    for k in ("miu_values_checked", "miu_values_checked_agf_on", "miu_values_checked_agf_off"):
-        R.counters["distinct_" + k + "_in_shard_max"] = 0      # placeholder replaced below
-        R.counters.pop("distinct_" + k + "_in_shard_max")
 
 
 def replay(case, R):
